@@ -4,11 +4,17 @@
 //   ratrecon.static f m k fr rc        Rational::ratrecon(num,den,f,m,k,fr,rc)
 //   ratrecon.zring  f m k fr rc        ZRing<Integer>::ratrecon(...)
 //   ratrecon.dflt   f m k              Rational::ratrecon(num,den,f,m,k)           (fr = true, rc = true)
+//   ratrecon.zdflt  f m k              ZRing<Integer>::ratrecon(num,den,f,m,k)     (fr = true, rc = true)
+//   ratrecon.fr1 / ratrecon.zfr1 f m k fr   the same two with forcereduce given, recurs defaulted (true)
+//   rr7.sdflt f m k                    Rational::RationalReconstruction(a,b,f,m,k)  (fr = true, rc = true)
+//   rr7.fr1 / rr7.zfr1 f m k fr        RationalReconstruction(a,b,f,m,k,fr)         (static / ZRing; rc = true)
 //   rr7.static / rr7.zring f m k fr rc RationalReconstruction(a,b,f,m,k,fr,rc)
 //   rr7.dflt f m k                     RationalReconstruction(a,b,f,m,k)            (fr = true, rc = true)
 //   rr4.static / rr4.zring f m         RationalReconstruction(a,b,f,m)
 //   rr6.static / rr6.zring f m ab bb   RationalReconstruction(a,b,f,m,a_bound,b_bound)
-//   ctor f m k fl rc                   Rational(f,m,k,rc) with Rational::flags = fl      (ok printed as 1)
+//   ctor f m k fl rc                   Rational(f,m,k,rc) with Rational::flags = fl
+//       the callers without a success report print "<ok'> <num> <den> <num'> <den'>" where (ok', num', den') is what
+//       Rational::ratrecon(num',den',f,m,k,fl,true) answers for the same input (the call they are specified to make first)
 //   ctor.dflt f m k fl                 Rational(f,m,k)                                   (rc = false)
 //   qfk f m k fl rc                    QField<Rational>::ratrecon(r,f,m,k,rc)
 //   qfk.dflt f m k fl                  QField<Rational>::ratrecon(r,f,m,k)          (rc = false)
@@ -90,6 +96,12 @@ int main() {
         if (v == "ratrecon.static" && a.size() == 5) ok = Rational::ratrecon(num, den, a[0], a[1], a[2], B(a[3]), B(a[4]));
         else if (v == "ratrecon.zring" && a.size() == 5) ok = ZZ.ratrecon(num, den, a[0], a[1], a[2], B(a[3]), B(a[4]));
         else if (v == "ratrecon.dflt" && a.size() == 3) ok = Rational::ratrecon(num, den, a[0], a[1], a[2]);
+        else if (v == "ratrecon.zdflt" && a.size() == 3) ok = ZZ.ratrecon(num, den, a[0], a[1], a[2]);
+        else if (v == "ratrecon.fr1" && a.size() == 4) ok = Rational::ratrecon(num, den, a[0], a[1], a[2], B(a[3]));
+        else if (v == "ratrecon.zfr1" && a.size() == 4) ok = ZZ.ratrecon(num, den, a[0], a[1], a[2], B(a[3]));
+        else if (v == "rr7.sdflt" && a.size() == 3) ok = Rational::RationalReconstruction(num, den, a[0], a[1], a[2]);
+        else if (v == "rr7.fr1" && a.size() == 4) ok = Rational::RationalReconstruction(num, den, a[0], a[1], a[2], B(a[3]));
+        else if (v == "rr7.zfr1" && a.size() == 4) ok = ZZ.RationalReconstruction(num, den, a[0], a[1], a[2], B(a[3]));
         else if (v == "rr7.static" && a.size() == 5) ok = Rational::RationalReconstruction(num, den, a[0], a[1], a[2], B(a[3]), B(a[4]));
         else if (v == "rr7.zring" && a.size() == 5) ok = ZZ.RationalReconstruction(num, den, a[0], a[1], a[2], B(a[3]), B(a[4]));
         else if (v == "rr7.dflt" && a.size() == 3) ok = ZZ.RationalReconstruction(num, den, a[0], a[1], a[2]);
@@ -110,6 +122,11 @@ int main() {
             else QQ.ratrecon(r, a[0], a[1]);
             num = r.nume(); den = r.deno();
             Rational::SetReduce();
+            Integer sn(0), sd(0);
+            Integer kk = (fi == 2) ? Givaro::sqrt(a[1]) : a[2];
+            ok = Rational::ratrecon(sn, sd, a[0], a[1], kk, B(a[fi]), true);
+            std::cout << (ok ? 1 : 0) << " " << num << " " << den << " " << sn << " " << sd << std::endl;
+            continue;
         }
         else { std::cout << "BAD-LINE" << std::endl; continue; }
         std::cout << (ok ? 1 : 0) << " " << num << " " << den << std::endl;
